@@ -5,6 +5,7 @@ use quote::ToTokens;
 use std::collections::{BTreeMap, BTreeSet};
 use syn::*;
 
+mod arb;
 mod ctrl;
 mod loops;
 pub(crate) use loops::Sort;
@@ -75,8 +76,8 @@ const MERGE_TRAITS: &[&str] = &["Add", "Sub"];
 /// types whose impls use loops / iterators / slices: translated through the loop subset
 /// (`emit/loops.rs`) into `<Module>/Loops.lean`
 const LOOP_TYPES: &[&str] = &["Piecewise", "PolyN"];
-/// trait impls of the loop types that stay hand-modelled (`Arbitrary`: external crate)
-const HAND_TRAITS: &[&str] = &["Arbitrary"];
+/// trait impls of the loop types that stay hand-modelled (none: `Arbitrary` goes through `emit/arb.rs`)
+const HAND_TRAITS: &[&str] = &[];
 const HAND_FNS: &[&str] = &[];
 /// free functions translated through the loop subset
 const LOOP_FNS: &[&str] = &["linear", "constrained_spline"];
@@ -162,6 +163,9 @@ struct BodyCx {
     bad_siblings: BTreeSet<String>,
     /// `&mut` parameters (Lean names) that are returned next to the result: `return e` yields `(e, p…)`
     ret_extra: Vec<String>,
+    /// the body is a function over `arbitrary::Unstructured` (see emit/arb.rs): `is_normal` is available
+    /// (the binder `[Arb.StdF64 F]` is in scope)
+    arb_mode: bool,
 }
 
 impl BodyCx {
@@ -183,6 +187,7 @@ impl BodyCx {
             allow_return: false,
             bad_siblings: BTreeSet::new(),
             ret_extra: vec![],
+            arb_mode: false,
         }
     }
     fn declare(&mut self, n: &str) {
@@ -283,6 +288,7 @@ impl Translator {
 
     pub fn translate_file(&mut self, fname: &str, ast: &File) {
         self.translate_items(fname, &ast.items, &[]);
+        self.emit_arbitrary_derives(fname);
     }
 
     /// call depth of a free function inside its file (callees are emitted first)
@@ -408,6 +414,11 @@ impl Translator {
             }
             None => format!("{fname}::impl {self_m}"),
         };
+        if trait_name.as_deref() == Some("Arbitrary") {
+            // functions over the external crate's `Unstructured`: emit/arb.rs
+            self.translate_arbitrary_impl(fname, im, &qual);
+            return;
+        }
         let is_loop_type = LOOP_TYPES.contains(&base.as_str());
         let hand_trait = trait_name.as_ref().map(|t| HAND_TRAITS.contains(&t.as_str())).unwrap_or(false);
         if HAND_TYPES.contains(&base.as_str()) || (is_loop_type && hand_trait) {
@@ -474,10 +485,6 @@ impl Translator {
             }
             return;
         };
-        if trait_name == "Arbitrary" {
-            self.record(qual, fname, "hand", "Arbitrary".into(), toks, "", "");
-            return;
-        }
         if is_loop_type {
             self.translate_loop_trait_impl(fname, im, sub, &trait_name, &qual);
             return;
@@ -688,6 +695,7 @@ impl Translator {
                         }
                         "AbsDiffEq" => insts.push(format!("[AbsDiffEq {subject} F]")),
                         "RelativeEq" => insts.push(format!("[RelativeEq {subject} F]")),
+                        "Arbitrary" => insts.push(format!("[Arb.ArbitraryT {subject}]")),
                         other => return Err(format!("unsupported trait bound {other}")),
                     }
                 }
@@ -1712,6 +1720,10 @@ impl Translator {
                 arity(0)?;
                 format!("(FloatLike.isNaN {recv})")
             }
+            "is_normal" if cx.arb_mode => {
+                arity(0)?;
+                format!("(Arb.StdF64.isNormal {recv})")
+            }
             "partial_cmp" => {
                 arity(1)?;
                 format!("(Iter.partialCmp {recv} {joined})")
@@ -1789,6 +1801,8 @@ impl Translator {
             "Piecewise/Merge" => vec!["PP.Core.Iter", "PP.Model.Types"],
             "Linear/Loops" => vec!["PP.Core.Iter", "PP.Model.Linear.Fns"],
             "Spline/Loops" => vec!["PP.Core.Iter", "PP.Model.Spline.Fns"],
+            "Piecewise/Arbitrary" => vec!["PP.Core.Iter", "PP.Core.Arb", "PP.Model.Types"],
+            f if f.ends_with("/Arbitrary") => vec!["PP.Core.Arb", "PP.Model.Types"],
             _ => vec!["PP.Model.Types"],
         }
     }
@@ -2034,6 +2048,8 @@ impl Translator {
             "Poly/Loops", "Piecewise/Loops", "Linear/Loops", "Spline/Loops",
             // control flow with effects (always written, so that a stale file never survives a source change)
             "Piecewise/Evaluator", "Piecewise/Merge",
+            // functions over `arbitrary::Unstructured` and the `#[derive(Arbitrary)]` instances
+            "Poly/Arbitrary", "Piecewise/Arbitrary",
         ];
         let mut names: BTreeSet<String> = all_files.iter().map(|s| s.to_string()).collect();
         names.extend(self.chunks.keys().cloned());
